@@ -15,7 +15,7 @@ TOKENS = ["a", "X", "_", "1", "0.5", "'q r'", '"s"', "(", ")", "[", "]", "|", ",
 assert len(TOKENS) == 26 and len(set(TOKENS)) == 26
 
 PRINTABLE = [chr(i) for i in range(32, 127)]
-# sub-alphabet for one more character than the full printable bound: one representative per tokenizer
+# 37-symbol sub-alphabet for one more character than the full printable bound: one representative per tokenizer
 # action of problog/parser.py (_token_act1..4, digits, upper, lower, whitespace, newline)
 SUBCHARS = list("aX_1 .,()[]|'\"\\+-*/:;<=>~@^#&%!?$`{}") + ["\n"]
 
